@@ -258,8 +258,9 @@ func bindingRule(P *Program, R *Report) {
 	}
 }
 
-func extractLimitsRule(P *Program, R *Report) {
-	rule := "C12.c"
+func extractLimitsRule(P *Program, R *Report) { extractLimitsRuleFor(P, R, "C12.c") }
+
+func extractLimitsRuleFor(P *Program, R *Report, rule string) {
 	fn := mustFunc(P, R, rule, kExtract)
 	if fn == nil {
 		return
